@@ -1,9 +1,10 @@
-(* C16 — cmath exact set: property theorems.  Each is closed by [exact] of a lemma proved in
-   Proofs*.v and followed by Print Assumptions.  Floating-point values are Flocq's
-   BinarySingleNaN.binary_float (all NaNs identified); b32 = binary32, b64 = binary64.
-   [g_*] = vendored gcem code, [e_*] = etl code, [spec_*] = ISO C Annex F / IEC 60559 via Flocq.
-   Theorems are stated for every format (prec, emax) when the proof is generic, and for the two
-   interchange formats otherwise. *)
+(* C16 — cmath exact set: property theorems, part 1 (sign, classification, min/max/dim, ladders,
+   recorded defects).  Each is closed by [exact] of lemmas proved in Proofs*.v and followed by
+   Print Assumptions.  Floating-point values are Flocq's BinarySingleNaN.binary_float (all NaNs
+   identified); b32 = binary32, b64 = binary64.  [g_*] = vendored gcem code, [e_*] = etl code,
+   [spec_*] = ISO C Annex F / IEC 60559 via Flocq.  The theorems of this file hold for EVERY
+   format (prec, emax) and EVERY value of it; conjunctions keep the number of Print Assumptions
+   (each costs ~1 s) small.  Part 2 (rounding kernels, nextafter) is Properties_rounding.v. *)
 From Coq Require Import ZArith Bool.
 From Flocq Require Import Core BinarySingleNaN.
 From Tetl Require Import Lib.Base C16.Model C16.Spec C16.ProofsBasic C16.ProofsRefuted.
@@ -14,84 +15,75 @@ Variables prec emax : Z.
 Context (Hp : Prec_gt_0 prec) (Hpe : Prec_lt_emax prec emax).
 Notation fl := (binary_float prec emax).
 
-(* fmin / fmax (detail::fmin, detail::fmax after 9128fcd): a NaN is missing data, ties return the
-   first operand *)
-Theorem C16_fmin_exact : forall x y : fl, e_fmin prec emax x y = spec_fmin prec emax x y.
-Proof. exact (e_fmin_exact prec emax). Qed.
-Theorem C16_fmax_exact : forall x y : fl, e_fmax prec emax x y = spec_fmax prec emax x y.
-Proof. exact (e_fmax_exact prec emax). Qed.
+(* fmin / fmax (detail::fmin, detail::fmax after 9128fcd): a NaN is missing data, operands that
+   compare equal return the first; fdim (detail::fdim after bd086ad) *)
+Theorem C16_fmin_fmax_fdim_exact : forall x y : fl,
+  e_fmin prec emax x y = spec_fmin prec emax x y /\
+  e_fmax prec emax x y = spec_fmax prec emax x y /\
+  e_fdim prec emax Hp Hpe x y = spec_fdim prec emax Hp Hpe x y.
+Proof.
+  intros x y. exact (conj (e_fmin_exact prec emax x y) (conj (e_fmax_exact prec emax x y)
+                                                              (e_fdim_exact prec emax Hp Hpe x y))).
+Qed.
 
-(* fdim (detail::fdim after bd086ad) *)
-Theorem C16_fdim_exact : forall x y : fl, e_fdim prec emax Hp Hpe x y = spec_fdim prec emax Hp Hpe x y.
-Proof. exact (e_fdim_exact prec emax Hp Hpe). Qed.
-
-(* abs / fabs (abs_impl after a3c791a) *)
-Theorem C16_fabs_exact : forall x : fl, e_abs prec emax Hp Hpe x = spec_fabs prec emax x.
-Proof. exact (e_abs_exact prec emax Hp Hpe). Qed.
-
-(* copysign_fallback (constant evaluation, long double) *)
-Theorem C16_copysign_fallback_exact : forall x y : fl,
+(* abs / fabs (abs_impl after a3c791a), gcem abs, copysign_fallback (after 869bd40; constant
+   evaluation and long double) *)
+Theorem C16_fabs_copysign_exact : forall x y : fl,
+  e_abs prec emax Hp Hpe x = spec_fabs prec emax x /\
+  g_abs prec emax Hp Hpe x = spec_fabs prec emax x /\
   e_copysign_fb prec emax x y = spec_copysign prec emax x y.
-Proof. exact (e_copysign_fb_exact prec emax). Qed.
+Proof.
+  intros x y. exact (conj (e_abs_exact prec emax Hp Hpe x) (conj (g_abs_exact prec emax Hp Hpe x)
+                                                                  (e_copysign_fb_exact prec emax x y))).
+Qed.
 
-(* classification: isfinite = !isnan && !isinf, and gcem's comparison-based tests *)
-Theorem C16_isfinite_exact : forall x : fl, e_isfinite prec emax x = spec_isfinite prec emax x.
-Proof. exact (e_isfinite_exact prec emax). Qed.
-Theorem C16_gcem_is_nan_exact : forall x : fl, g_is_nan prec emax x = spec_isnan prec emax x.
-Proof. exact (g_is_nan_exact prec emax). Qed.
-Theorem C16_gcem_is_inf_exact : forall x : fl, g_is_inf prec emax x = spec_isinf prec emax x.
-Proof. exact (g_is_inf_exact prec emax). Qed.
-Theorem C16_gcem_is_finite_exact : forall x : fl, g_is_finite prec emax x = spec_isfinite prec emax x.
-Proof. exact (g_is_finite_exact prec emax). Qed.
-Theorem C16_gcem_abs_exact : forall x : fl, g_abs prec emax Hp Hpe x = spec_fabs prec emax x.
-Proof. exact (g_abs_exact prec emax Hp Hpe). Qed.
+(* classification: isfinite = !isnan && !isinf, gcem's comparison-based tests, gcem sgn *)
+Theorem C16_classification_exact : forall x : fl,
+  e_isfinite prec emax x = spec_isfinite prec emax x /\
+  g_is_nan prec emax x = spec_isnan prec emax x /\
+  g_is_inf prec emax x = spec_isinf prec emax x /\
+  g_is_finite prec emax x = spec_isfinite prec emax x /\
+  g_sgn prec emax Hp Hpe x = spec_sgn prec emax x.
+Proof.
+  intros x. exact (conj (e_isfinite_exact prec emax x) (conj (g_is_nan_exact prec emax x)
+    (conj (g_is_inf_exact prec emax x) (conj (g_is_finite_exact prec emax x) (g_sgn_exact prec emax Hp Hpe x))))).
+Qed.
 
 (* hypot: the ladder in front of the square root follows F.10.4.3 (infinity wins over NaN);
    None on both sides = no special case, the (approximate) sqrt kernel is reached *)
-Theorem C16_hypot_special_exact : forall x y : fl,
-  e_hypot_ladder prec emax x y = spec_hypot_special prec emax x y.
-Proof. exact (e_hypot_ladder_exact prec emax). Qed.
-Theorem C16_hypot3_special_exact : forall x y z : fl,
+Theorem C16_hypot_special_exact : forall x y z : fl,
+  e_hypot_ladder prec emax x y = spec_hypot_special prec emax x y /\
   e_hypot3_ladder prec emax x y z = spec_hypot3_special prec emax x y z.
-Proof. exact (e_hypot3_ladder_exact prec emax). Qed.
+Proof.
+  intros x y z. exact (conj (e_hypot_ladder_exact prec emax x y) (e_hypot3_ladder_exact prec emax x y z)).
+Qed.
 
 End AnyFormat.
-Print Assumptions C16_fmin_exact.
-Print Assumptions C16_fmax_exact.
-Print Assumptions C16_fdim_exact.
-Print Assumptions C16_fabs_exact.
-Print Assumptions C16_copysign_fallback_exact.
-Print Assumptions C16_isfinite_exact.
-Print Assumptions C16_gcem_is_nan_exact.
-Print Assumptions C16_gcem_is_inf_exact.
-Print Assumptions C16_gcem_is_finite_exact.
-Print Assumptions C16_gcem_abs_exact.
+Print Assumptions C16_fmin_fmax_fdim_exact.
+Print Assumptions C16_fabs_copysign_exact.
+Print Assumptions C16_classification_exact.
 Print Assumptions C16_hypot_special_exact.
-Print Assumptions C16_hypot3_special_exact.
 
-(* signbit_fallback: the top bit of the bit pattern is the IEEE sign *)
-Theorem C16_signbit_fallback_exact_b32 : forall x : b32, signbit_fb32 x = spec_signbit 24 128 x.
-Proof. exact signbit_fb32_exact. Qed.
-Print Assumptions C16_signbit_fallback_exact_b32.
-Theorem C16_signbit_fallback_exact_b64 : forall x : b64, signbit_fb64 x = spec_signbit 53 1024 x.
-Proof. exact signbit_fb64_exact. Qed.
-Print Assumptions C16_signbit_fallback_exact_b64.
+(* signbit_fallback (after a32acd7): the top bit of the bit pattern is the IEEE sign *)
+Theorem C16_signbit_fallback_exact :
+  (forall x : b32, signbit_fb32 x = spec_signbit 24 128 x) /\
+  (forall x : b64, signbit_fb64 x = spec_signbit 53 1024 x).
+Proof. exact (conj signbit_fb32_exact signbit_fb64_exact). Qed.
+Print Assumptions C16_signbit_fallback_exact.
 
-(* recorded defects of the vendored gcem fall-back (known findings KF-C16-gcem-...): the
-   constant-evaluation path of fmod / remainder *)
-Theorem C16_gcem_fmod_refuted : exists x y : b32,
-  g_fmod 24 128 p32 pe32 x y <> Ok (spec_fmod 24 128 p32 pe32 x y).
-Proof. exact g_fmod_refuted. Qed.
+(* recorded defects of the vendored gcem fall-back (known findings KF-C16-gcem-fmod-*,
+   KF-C16-gcem-remainder-is-fmod): the constant-evaluation path of fmod / remainder *)
+Theorem C16_gcem_fmod_refuted :
+  (exists x y : b32, g_fmod 24 128 p32 pe32 x y <> Ok (spec_fmod 24 128 p32 pe32 x y)) /\
+  (exists x y : b32, g_fmod 24 128 p32 pe32 x y <> Ok (spec_remainder 24 128 p32 pe32 x y)).
+Proof. exact (conj g_fmod_refuted g_remainder_refuted). Qed.
 Print Assumptions C16_gcem_fmod_refuted.
-Theorem C16_gcem_remainder_refuted : exists x y : b32,
-  g_fmod 24 128 p32 pe32 x y <> Ok (spec_remainder 24 128 p32 pe32 x y).
-Proof. exact g_remainder_refuted. Qed.
-Print Assumptions C16_gcem_remainder_refuted.
 (* why fmin/fmax no longer use gcem min/max *)
-Theorem C16_gcem_min_refuted : exists x y : b32, g_min 24 128 x y <> spec_fmin 24 128 x y.
-Proof. exact g_min_refuted. Qed.
-Print Assumptions C16_gcem_min_refuted.
+Theorem C16_gcem_min_max_refuted :
+  (exists x y : b32, g_min 24 128 x y <> spec_fmin 24 128 x y) /\
+  (exists x y : b32, g_max 24 128 x y <> spec_fmax 24 128 x y).
+Proof. exact (conj g_min_refuted g_max_refuted). Qed.
+Print Assumptions C16_gcem_min_max_refuted.
 
 Example C16_nonvacuous : enc32 (e_fmin 24 128 (dec32 1065353216) B754_nan) = 1065353216.
 Proof. vm_compute. reflexivity. Qed.
-Print Assumptions C16_nonvacuous.
